@@ -397,6 +397,16 @@ func (c14) RunBatch(ctx *core.Ctx, batch int) {
 		perG *= 3
 	}
 	results := make([][]rec, cfg.goroutines)
+	// queries nobody has made before (field names, values and text unique to this goroutine and
+	// step): whatever the library remembers per name, value or query text is missed - and
+	// filled - by several goroutines at once, which the corpus, warmed up by the sequential
+	// baseline, can never do
+	type freshRec struct {
+		q   string
+		op  int
+		res string
+	}
+	fresh := make([][]freshRec, cfg.goroutines)
 	start := make(chan struct{})
 	var wg sync.WaitGroup
 	var inflight [nOps]int32
@@ -411,6 +421,12 @@ func (c14) RunBatch(ctx *core.Ctx, batch int) {
 			seen := map[[2]int]struct{}{}
 			<-start
 			for k := 0; k < perG; k++ {
+				if k%4 == 1 {
+					q := fmt.Sprintf("u%d_%d_%d:w%d_%d OR x%d_%d_%d:[1 TO %d] AND NOT y%d_%d_%d:p%d*", batch, g, k, g, k, batch, g, k, k+2, batch, g, k, k)
+					op := rr.Intn(3)
+					fresh[g] = append(fresh[g], freshRec{q, op, runOp(op, q, nil)})
+					continue
+				}
 				qi := rr.Intn(len(qs))
 				if k%3 == 0 {
 					qi = k % 7 // few keys: many goroutines on the same shared expressions
@@ -451,6 +467,17 @@ func (c14) RunBatch(ctx *core.Ctx, batch int) {
 			}
 			for p := range overlaps[g] {
 				ctx.Distinct("overlapping_pairs", opNames[p[0]]+"||"+opNames[p[1]])
+			}
+		}
+		for g := range fresh {
+			for _, fr := range fresh[g] {
+				ctx.Count("fresh_name_operations", 1)
+				if again := runOp(fr.op, fr.q, nil); again != fr.res {
+					ctx.Violate("c14:concurrent-result-differs:fresh:"+opNames[fr.op], "%s on the never-seen query %q under %d goroutines gives %q, sequentially afterwards %q", opNames[fr.op], fr.q, cfg.goroutines, fr.res, again)
+				}
+				if strings.HasPrefix(fr.res, "PANIC") {
+					ctx.Violate("c14:panic:"+opNames[fr.op], "%s on %q: %s", opNames[fr.op], fr.q, fr.res)
+				}
 			}
 		}
 		for i := range shared {
